@@ -411,7 +411,114 @@ def scn_h3(run):
     _finish(run)
 
 
-SCENARIOS = {"net": scn_net, "retry_vn": scn_retry_vn, "hostile": scn_hostile, "garbage": scn_garbage, "h3": scn_h3}
+# ---- crafted transport parameters (RFC 9000 section 18: id varint, length varint, value) ----
+def tp_split(b):
+    from harness import frames as F
+    out, i = [], 0
+    while i < len(b):
+        pid, i = F.get_varint(b, i)
+        ln, i = F.get_varint(b, i)
+        out.append([pid, bytes(b[i:i + ln])])
+        i += ln
+    return out
+
+
+def tp_join(ps):
+    from harness import frames as F
+    return b"".join(F.put_varint(pid) + F.put_varint(len(v)) + v for pid, v in ps)
+
+
+def tp_set(ps, pid, val):
+    ps = [p for p in ps if p[0] != pid]
+    return ps + [[pid, val]]
+
+
+def tp_preferred_address(r, v4=True, v6=True, cid_len=8):
+    """preferred_address value (RFC 9000 section 18.2): IPv4, port, IPv6, port, CID length, CID, reset token"""
+    rb = lambda n: bytes(r.randrange(1, 256) for _ in range(n))           # noqa: E731
+    return ((rb(4) + rb(2)) if v4 else bytes(6)) + ((rb(16) + rb(2)) if v6 else bytes(18)) \
+        + bytes([cid_len]) + rb(cid_len) + rb(16)
+
+
+def tp_craft(r, variant, ps, is_client):
+    """crafted parameter list announced by the peer, from its genuine list `ps`"""
+    from harness import frames as F
+    pv = F.put_varint
+    rb = lambda n: bytes(r.randrange(256) for _ in range(n))              # noqa: E731
+    vi = dict((p[0], p[1]) for p in ps).get(0x11, b"")
+    if variant == "all-optional":
+        # every optional parameter a peer of this role may send, each present
+        ps = tp_set(ps, 0x03, pv(r.choice([1200, 1472, 65527])))
+        ps = tp_set(ps, 0x0A, pv(r.choice([0, 3, 20])))
+        ps = tp_set(ps, 0x0B, pv(r.choice([0, 25, 16383])))
+        ps = tp_set(ps, 0x0C, b"")
+        ps = tp_set(ps, 0x0E, pv(r.choice([2, 8, 1000])))
+        ps = tp_set(ps, 0x20, pv(r.choice([0, 1200, 65535])))
+        ps = tp_set(ps, 0x0C37, rb(r.choice([1, 200, 600])))
+        if vi:
+            ps = tp_set(ps, 0x11, vi + b"".join(rb(4) for _ in range(r.choice([1, 8, 40]))))
+        for k in range(3):
+            ps = tp_set(ps, 31 * r.randrange(1, 1 << 20) + 27, rb(r.choice([0, 1, 30])))    # reserved (grease) ids
+        if not is_client:
+            ps = tp_set(ps, 0x02, rb(16))
+            ps = tp_set(ps, 0x0D, tp_preferred_address(r, cid_len=r.choice([1, 8, 20])))
+    elif variant == "preferred":
+        ps = tp_set(ps, 0x0D, tp_preferred_address(r, v4=r.random() < 0.7, v6=r.random() < 0.7, cid_len=r.choice([1, 8, 20])))
+    elif variant == "server-only-from-client":
+        pid, val = r.choice([(0x00, rb(8)), (0x0D, tp_preferred_address(r)), (0x10, rb(8)), (0x02, rb(16))])
+        ps = tp_set(ps, pid, val)
+    elif variant == "versions":
+        if vi:
+            ps = tp_set(ps, 0x11, vi + b"".join(rb(4) for _ in range(r.choice([50, 200]))))
+    elif variant == "unknown":
+        for pid in (0x12, 0x1F, 0x21, 0x3F, 0x40, 16383, 1 << 30, (1 << 62) - 1):
+            if r.random() < 0.5:
+                ps = tp_set(ps, pid, rb(r.choice([0, 3, 100])))
+    elif variant == "big":
+        big = pv((1 << 62) - 1)
+        for pid in (0x01, 0x04, 0x05, 0x06, 0x07, 0x0E, 0x20):
+            if r.random() < 0.6:
+                ps = tp_set(ps, pid, big)
+        ps = tp_set(ps, 0x0C37, rb(r.choice([600, 1000])))
+    elif variant == "malformed":
+        pid = r.choice([0x0D, 0x11, 0x02, 0x0C, 0x01])
+        ps = tp_set(ps, pid, rb(r.choice([0, 1, 3, 17, 40])))
+    return ps
+
+
+def scn_tp(run):
+    """the peer of `victim` announces crafted transport parameters (its own
+    `_serialize_transport_parameters` output is rewritten by the harness)"""
+    s, r = run.sim, run.r
+    victim = s.client if run.opts["victim"] == "client" else s.server
+    peer = victim.peer
+    orig = peer.conn._serialize_transport_parameters
+    variant = run.opts["variant"]
+
+    def wrapped():
+        b = orig()
+        try:
+            return tp_join(tp_craft(random_for(run), variant, tp_split(b), peer.is_client))
+        except Exception:  # noqa  (genuine bytes not parseable: leave them)
+            return b
+
+    peer.conn._serialize_transport_parameters = wrapped
+    s.connect()
+    s.fair_phase(max_steps=60, done=lambda: (s.client.conn._handshake_confirmed and s.server.conn._handshake_confirmed
+                                             and not s.pending) or any(ep.conn._close_event is not None for ep in s.endpoints))
+    if all(ep.conn._close_event is None for ep in s.endpoints):
+        _writes(run, r.choice([5, 20]), net=NETS["benign"])
+    _finish(run, close=r.random() < 0.7)
+
+
+def random_for(run):
+    """PRNG for the crafted parameters: a function of the seed only, so that both
+    runs of a pair (and repeated serialisations) announce the same bytes"""
+    import random
+    return random.Random(f"tp/{run.seed}")
+
+
+SCENARIOS = {"tp": scn_tp, "net": scn_net, "retry_vn": scn_retry_vn, "hostile": scn_hostile, "garbage": scn_garbage, "h3": scn_h3}
 
 
 def plan(r, tier):
@@ -440,6 +547,13 @@ def plan(r, tier):
                 "client": {"alpn_protocols": ["h3"], "max_datagram_frame_size": 1200},
                 "server": {"alpn_protocols": ["h3"], "max_datagram_frame_size": 1200}}
         out.append(("h3", r.randrange(1 << 30), opts))
+    tpv = [("client", "all-optional"), ("client", "preferred"), ("server", "server-only-from-client"),
+           ("server", "all-optional"), ("client", "versions"), ("server", "versions"), ("client", "unknown"),
+           ("server", "unknown"), ("client", "big"), ("server", "big"), ("client", "malformed"), ("server", "malformed")]
+    for i in range(len(tpv) * 2 * k):
+        victim, variant = tpv[i % len(tpv)]
+        out.append(("tp", r.randrange(1 << 30),
+                    {"victim": victim, "variant": variant, "mode": ["both", "file"][(i // len(tpv)) % 2]}))
     return out
 
 
@@ -595,13 +709,13 @@ def main(tier):
             if ctx.witnesses:
                 return
         for name, seed, opts in plan(rs, "quick"):
-            run_pair(ctx, name, seed, opts, "both", stats)
+            run_pair(ctx, name, seed, opts, opts.get("mode", "both"), stats)
             if ctx.witnesses:
                 return
     ctx.search = search
     ok_cal = 0
     for i, (name, seed, opts) in enumerate(jobs):
-        mode = modes[0] if i % 3 else modes[(i // 3) % 4]
+        mode = opts.get("mode") or (modes[0] if i % 3 else modes[(i // 3) % 4])
         run_pair(ctx, name, seed, opts, mode, stats)
         if i % 10 == 0:
             ok_cal += calibrate(ctx, name, seed, opts)
@@ -613,7 +727,9 @@ def main(tier):
         "paired runs (logging off vs qlog / secrets log / both / QuicFileLogger, same PRNG seed) of: two real connections over "
         "benign, lossy, duplicating and rebinding networks with a PRNG script of send_stream_data/reset_stream/stop_sending/"
         "send_datagram_frame/send_ping/request_key_update/change_connection_id and an odd close reason; Retry / Version "
-        "Negotiation (valid, invalid, repeated, no common version, late); hostile frames injected with live keys (every frame "
+        "Negotiation (valid, invalid, repeated, no common version, late); crafted peer transport parameters (every optional parameter "
+        "present incl. preferred_address, long version_information, server-only parameters sent by a client, unknown / reserved ids, "
+        "maximal values, malformed values; in-memory QuicLogger and QuicFileLogger); hostile frames injected with live keys (every frame "
         "type with boundary values, truncated, unknown types, reserved header bits) in handshake and connected states; garbage "
         "datagrams in every connection state; HTTP/3 on both ends with odd header bytes (non-UTF-8 names/values), push, "
         "trailers, H3 datagrams, WebTransport streams, malformed H3 frames.  Non-trivial = more than 6 packets/events "
